@@ -1,6 +1,7 @@
 package main
 
 import (
+	"go/constant"
 	"fmt"
 	"go/token"
 	"go/types"
@@ -233,6 +234,23 @@ func (p *Prog) Fn(name string) *ssa.Function {
 }
 
 // Named looks up a named type "pkg.Type".
+// ConstInt returns the value of an integer constant of the repository
+// ("server.stateDeleted"), or def when it is not declared.
+func (p *Prog) ConstInt(q string, def int64) int64 {
+	i := strings.IndexByte(q, '.')
+	if i < 0 {
+		return def
+	}
+	if pk := p.Typs[q[:i]]; pk != nil {
+		if cst, ok := pk.Scope().Lookup(q[i+1:]).(*types.Const); ok {
+			if v, exact := constant.Int64Val(constant.ToInt(cst.Val())); exact {
+				return v
+			}
+		}
+	}
+	return def
+}
+
 func (p *Prog) Named(q string) *types.Named {
 	i := strings.IndexByte(q, '.')
 	if i < 0 {
